@@ -10,6 +10,18 @@ import (
 )
 
 
+// stripComments removes // comments (line by line)
+func stripComments(s string) string {
+	var out []string
+	for _, l := range strings.Split(s, "\n") {
+		if i := strings.Index(l, "//"); i >= 0 {
+			l = l[:i]
+		}
+		out = append(out, l)
+	}
+	return strings.Join(out, "\n")
+}
+
 func nows(s string) string {
 	return strings.Join(strings.Fields(s), "")
 }
@@ -107,6 +119,49 @@ func RegisterRouteFacts() {
 		}
 		e.P("/-- Match starts with `t.lock.RLock(); defer t.lock.RUnlock()` -/")
 		e.P("def matchReadLocked : Bool := %s", LeanBool(locked))
+
+		// --- the shape of the resolution itself -------------------------------------------------
+		// Match: the trailing-slash rule comes before the exact lookup; the loop keeps the longest
+		// matching pattern; pathMatch: exact comparison for a pattern without trailing '/', prefix
+		// test guarded by the length otherwise.  (Expressions are compared as text.)
+		slashFirst, loopKeepsLongest := false, false
+		if match != nil && match.Body != nil {
+			posSlash, posLookup := -1, -1
+			for i, st := range match.Body.List {
+				s := nows(Src(st))
+				if ifs, ok := st.(*ast.IfStmt); ok && nows(Src(ifs.Cond)) == "path[len(path)-1]=='/'" &&
+					len(ifs.Body.List) == 1 && nows(Src(ifs.Body.List[0])) == "returnnil" && posSlash < 0 {
+					posSlash = i
+				}
+				if strings.HasPrefix(s, "r,ok:=t.m[path]") && posLookup < 0 {
+					posLookup = i
+				}
+				if f, ok := st.(*ast.RangeStmt); ok && nows(Src(f.X)) == "t.m" && nows(Src(f.Key)) == "k" && nows(Src(f.Value)) == "v" {
+					b := f.Body.List
+					if len(b) == 2 && nows(Src(b[0])) == "if!pathMatch(k,path){continue}" && nows(Src(b[1])) == "ifr==nil||len(k)>n{n=len(k)r=v}" {
+						loopKeepsLongest = true
+					}
+				}
+			}
+			slashFirst = posSlash >= 0 && posLookup > posSlash
+		}
+		pm := FuncDecl(rt, "", "pathMatch")
+		pmBody := ""
+		if pm != nil && pm.Body != nil {
+			var parts []string
+			for _, st := range pm.Body.List {
+				parts = append(parts, nows(stripComments(Src(st))))
+			}
+			pmBody = strings.Join(parts, ";")
+		} else {
+			e.Unknown("pathMatch")
+		}
+		e.P("/-- Match: `if path[len(path)-1] == '/' { return nil }` stands before the lookup `t.m[path]` -/")
+		e.P("def matchSlashRuleFirst : Bool := %s", LeanBool(slashFirst))
+		e.P("/-- Match: `for k, v := range t.m { if !pathMatch(k, path) { continue }; if r == nil || len(k) > n { n = len(k); r = v } }` -/")
+		e.P("def matchLoopKeepsLongest : Bool := %s", LeanBool(loopKeepsLongest))
+		e.P("/-- pathMatch: its statements (whitespace and comments removed) -/")
+		e.P("def pathMatchBody : String := %s", LeanStr(pmBody))
 
 		// --- media.GetOrCreate: what is handed to the pull-stream factory -----------------------
 		gl := Parse("media/global.go")
